@@ -22,6 +22,7 @@ var corpusSrcs = []struct{ name, src string }{
 	{"c07-5-hang", "local n = 0\nif n > 5 then n = 1000 end\nfor k in pairs({1, 2, 3}) do break end\nn = n + 1\nreturn n"},
 	{"c07-5-wrong", "local i = 0\nlocal j = 0\nif i > 100 then j = 5 end\nwhile true do\n  while true do break end\n  i = i + 1\n  j = j + 10\n  if i > 3 then break end\nend\nreturn i, j"},
 	{"c07-5-capture", "local function f(a)\n  local g = function() return a end\n  local c = 0\n  ::top::\n  while true do c = c + 1; if c > 3 then return c end end\n  goto top\nend\nreturn f(1)"},
+	{"c07-5-capture-exact", "local function f(a)\n  local g = function() return a end\n  ::top::\n  while true do end\n  goto top\nend\nreturn 1"},
 	{"c07-5-tfor-nop", "local n = 0\nif n > 5 then n = 1 end\nif n > 6 then n = 2 end\nfor k, v in pairs({1}) do break end\nn = n + 1\nn = n + 10\nn = n + 100\nreturn n"},
 	// C07-6: MOVEN across a jump target
 	{"c07-6-moven", "local function p(...) return ... end\nlocal gs = 'g'\nlocal function f(p1, p2) return p(gs, ('' or gs), p2, {}) end\nreturn f(1, 2)"},
